@@ -394,6 +394,250 @@ class ExplicitDefaults(ast.NodeTransformer):
         return node
 
 
+
+def _neg(t):
+    """the negation of a test, written the way a person would: ==/is/in negated in place, `not x` unwrapped, anything else wrapped"""
+    if isinstance(t, ast.Compare) and len(t.ops) == 1 and type(t.ops[0]) in NEG:
+        return ast.Compare(left=t.left, ops=[NEG[type(t.ops[0])]()], comparators=t.comparators)
+    if isinstance(t, ast.UnaryOp) and isinstance(t.op, ast.Not):
+        return t.operand
+    return ast.UnaryOp(op=ast.Not(), operand=t)
+
+
+class DeMorgan(ast.NodeTransformer):
+    """a and b -> not (not a or not b);  a or b -> not (not a and not b), for the tests of if / while / conditional expressions / assert
+    (a test is only used for its truth, so returning a bool instead of an operand is behaviour-preserving there)"""
+
+    def _t(self, t):
+        if isinstance(t, ast.BoolOp):
+            other = ast.Or() if isinstance(t.op, ast.And) else ast.And()
+            return ast.UnaryOp(op=ast.Not(), operand=ast.BoolOp(op=other, values=[_neg(self._t(v)) for v in t.values]))
+        return t
+
+    def visit_If(self, node):
+        self.generic_visit(node)
+        node.test = self._t(node.test)
+        return node
+
+    visit_While = visit_If
+    visit_IfExp = visit_If
+    visit_Assert = visit_If
+
+
+class NestAnd(ast.NodeTransformer):
+    """if a and b: BODY  (no else)  ->  if a: if b: BODY"""
+
+    def visit_If(self, node):
+        self.generic_visit(node)
+        if not node.orelse and isinstance(node.test, ast.BoolOp) and isinstance(node.test.op, ast.And):
+            inner = node.body
+            for v in reversed(node.test.values):
+                inner = [ast.If(test=v, body=inner, orelse=[])]
+            return inner[0]
+        return node
+
+
+class MergeNested(ast.NodeTransformer):
+    """if a: if b: BODY  (no elses, nothing else in the outer body)  ->  if a and b: BODY"""
+
+    def visit_If(self, node):
+        self.generic_visit(node)
+        if not node.orelse and len(node.body) == 1 and isinstance(node.body[0], ast.If) and not node.body[0].orelse:
+            inner = node.body[0]
+            return ast.If(test=ast.BoolOp(op=ast.And(), values=[node.test, inner.test]), body=inner.body, orelse=[])
+        return node
+
+
+class SplitOr(ast.NodeTransformer):
+    """if a or b: raise E  (no else)  ->  if a: raise E  followed by  if b: raise E   (the tests of the package have no side effects)"""
+
+    def visit_If(self, node):
+        self.generic_visit(node)
+        if not node.orelse and isinstance(node.test, ast.BoolOp) and isinstance(node.test.op, ast.Or) and len(node.body) == 1 and isinstance(node.body[0], ast.Raise):
+            return [ast.If(test=v, body=[ast.parse(ast.unparse(node.body[0])).body[0]], orelse=[]) for v in node.test.values]
+        return node
+
+
+class FlagGuard(ast.NodeTransformer):
+    """if T: raise E(msg)  ->  _bad_N = T; if _bad_N: _msg_N = msg; raise E(_msg_N)   (first-level ifs of a body; T evaluated once as before)"""
+
+    def __init__(self):
+        self.n = 0
+
+    def _body(self, body):
+        out = []
+        for st in body:
+            if isinstance(st, ast.If) and not st.orelse and len(st.body) == 1 and isinstance(st.body[0], ast.Raise) and st.body[0].exc is not None:
+                self.n += 1
+                flag = "_bad_%d" % self.n
+                out.append(ast.Assign(targets=[ast.Name(id=flag, ctx=ast.Store())], value=st.test))
+                r = st.body[0]
+                body2 = [r]
+                if isinstance(r.exc, ast.Call) and len(r.exc.args) == 1 and not r.exc.keywords:
+                    m = "_msg_%d" % self.n
+                    body2 = [ast.Assign(targets=[ast.Name(id=m, ctx=ast.Store())], value=r.exc.args[0]),
+                             ast.Raise(exc=ast.Call(func=r.exc.func, args=[ast.Name(id=m, ctx=ast.Load())], keywords=[]), cause=r.cause)]
+                out.append(ast.If(test=ast.Name(id=flag, ctx=ast.Load()), body=body2, orelse=[]))
+            else:
+                out.append(st)
+        return out
+
+    def generic_visit(self, node):
+        super().generic_visit(node)
+        for f in ("body", "orelse", "finalbody"):
+            b = getattr(node, f, None)
+            if isinstance(b, list) and b and isinstance(b[0], ast.stmt):
+                setattr(node, f, self._body(b))
+        return node
+
+
+class AnyAllDual(ast.NodeTransformer):
+    """any(p for x in s) -> not all(not p for x in s);  all(p for x in s) -> not any(not p for x in s)"""
+
+    def visit_Call(self, node):
+        self.generic_visit(node)
+        if isinstance(node.func, ast.Name) and node.func.id in ("any", "all") and len(node.args) == 1 and not node.keywords and isinstance(node.args[0], (ast.GeneratorExp, ast.ListComp)):
+            g = node.args[0]
+            dual = "all" if node.func.id == "any" else "any"
+            g2 = type(g)(elt=_neg(g.elt), generators=g.generators)
+            return ast.UnaryOp(op=ast.Not(), operand=ast.Call(func=ast.Name(id=dual, ctx=ast.Load()), args=[g2], keywords=[]))
+        return node
+
+
+class _RenameName(ast.NodeTransformer):
+    def __init__(self, mapping):
+        self.mapping = mapping
+
+    def visit_Name(self, node):
+        if node.id in self.mapping:
+            node.id = self.mapping[node.id]
+        return node
+
+
+class CompToLoop(ast.NodeTransformer):
+    """x = [E for t in S if c]  ->  x = []; for t' in S: if c: x.append(E)      (one generator; plain-name target; the loop variables are
+    renamed so that nothing of the enclosing scope is overwritten).  x = {K: V for ...} and x = tuple(E for ...) likewise."""
+
+    def __init__(self):
+        self.n = 0
+
+    def _body(self, body):
+        out = []
+        for st in body:
+            done = False
+            if isinstance(st, ast.Assign) and len(st.targets) == 1 and isinstance(st.targets[0], ast.Name):
+                v, wrap = st.value, None
+                if isinstance(v, ast.Call) and isinstance(v.func, ast.Name) and v.func.id in ("tuple", "list") and len(v.args) == 1 and not v.keywords and isinstance(v.args[0], (ast.GeneratorExp, ast.ListComp)):
+                    wrap, v = v.func.id, v.args[0]
+                name = st.targets[0].id
+                if isinstance(v, (ast.ListComp, ast.DictComp)) or (wrap and isinstance(v, ast.GeneratorExp)):
+                    if len(v.generators) == 1 and not v.generators[0].is_async and not any(isinstance(x, ast.Name) and x.id == name for x in ast.walk(v)) \
+                            and not any(isinstance(x, (ast.Lambda, ast.ListComp, ast.GeneratorExp, ast.DictComp, ast.SetComp)) for c in ast.iter_child_nodes(v) for x in ast.walk(c)):
+                        g = v.generators[0]
+                        self.n += 1
+                        mapping = {x.id: "_cl%d_%s" % (self.n, x.id) for x in ast.walk(g.target) if isinstance(x, ast.Name)}
+                        ren = lambda n: _RenameName(mapping).visit(ast.parse(ast.unparse(n), mode="eval").body)
+                        tgt = ast.parse(ast.unparse(ren(g.target))).body[0].value
+                        for x in ast.walk(tgt):
+                            if isinstance(x, (ast.Name, ast.Tuple, ast.List)):
+                                x.ctx = ast.Store()
+                        acc = "_cl%d_acc" % self.n if wrap == "tuple" else name
+                        if isinstance(v, ast.DictComp):
+                            init = ast.Dict(keys=[], values=[])
+                            add = ast.Assign(targets=[ast.Subscript(value=ast.Name(id=acc, ctx=ast.Load()), slice=ren(v.key), ctx=ast.Store())], value=ren(v.value))
+                        else:
+                            init = ast.List(elts=[], ctx=ast.Load())
+                            add = ast.Expr(value=ast.Call(func=ast.Attribute(value=ast.Name(id=acc, ctx=ast.Load()), attr="append", ctx=ast.Load()), args=[ren(v.elt)], keywords=[]))
+                        inner = [add]
+                        for c in reversed(g.ifs):
+                            inner = [ast.If(test=ren(c), body=inner, orelse=[])]
+                        out.append(ast.Assign(targets=[ast.Name(id=acc, ctx=ast.Store())], value=init))
+                        out.append(ast.For(target=tgt, iter=g.iter, body=inner, orelse=[]))
+                        if wrap == "tuple":
+                            out.append(ast.Assign(targets=[ast.Name(id=name, ctx=ast.Store())], value=ast.Call(func=ast.Name(id="tuple", ctx=ast.Load()), args=[ast.Name(id=acc, ctx=ast.Load())], keywords=[])))
+                        done = True
+            if not done:
+                out.append(st)
+        return out
+
+    def generic_visit(self, node):
+        super().generic_visit(node)
+        if isinstance(node, ast.ClassDef):
+            return node
+        for f in ("body", "orelse", "finalbody"):
+            b = getattr(node, f, None)
+            if isinstance(b, list) and b and isinstance(b[0], ast.stmt):
+                setattr(node, f, self._body(b))
+        return node
+
+
+class ReturnTemp(ast.NodeTransformer):
+    """return EXPR -> _ret = EXPR; return _ret   (not inside lambdas; generators have no valued return in the package)"""
+
+    def generic_visit(self, node):
+        super().generic_visit(node)
+        for f in ("body", "orelse", "finalbody"):
+            b = getattr(node, f, None)
+            if isinstance(b, list) and b and isinstance(b[0], ast.stmt):
+                out = []
+                for st in b:
+                    if isinstance(st, ast.Return) and st.value is not None and not isinstance(st.value, (ast.Name, ast.Constant)):
+                        out.append(ast.Assign(targets=[ast.Name(id="_ret", ctx=ast.Store())], value=st.value))
+                        out.append(ast.Return(value=ast.Name(id="_ret", ctx=ast.Load())))
+                    else:
+                        out.append(st)
+                setattr(node, f, out)
+        return node
+
+
+class IfExpToIf(ast.NodeTransformer):
+    """x = A if c else B  ->  if c: x = A  else: x = B   (plain-name target)"""
+
+    def visit_Assign(self, node):
+        if len(node.targets) == 1 and isinstance(node.targets[0], ast.Name) and isinstance(node.value, ast.IfExp):
+            nm = node.targets[0].id
+            return ast.If(test=node.value.test, body=[ast.Assign(targets=[ast.Name(id=nm, ctx=ast.Store())], value=node.value.body)],
+                          orelse=[ast.Assign(targets=[ast.Name(id=nm, ctx=ast.Store())], value=node.value.orelse)])
+        return node
+
+
+class KwargsDict(ast.NodeTransformer):
+    """f(a, k1=v1, k2=v2) -> f(a, **dict(k1=v1, k2=v2)) for calls with two or more plain keywords (evaluation order is unchanged)"""
+
+    def visit_Call(self, node):
+        self.generic_visit(node)
+        if len(node.keywords) >= 2 and all(k.arg is not None for k in node.keywords) and not (isinstance(node.func, ast.Name) and node.func.id == "dict"):
+            node.keywords = [ast.keyword(arg=None, value=ast.Call(func=ast.Name(id="dict", ctx=ast.Load()), args=[], keywords=node.keywords))]
+        return node
+
+
+class StarArgs(ast.NodeTransformer):
+    """f(a, b, ...) -> f(*(a, b, ...)) for calls with two or more plain positional arguments and no keywords... kept: keywords stay"""
+
+    def visit_Call(self, node):
+        self.generic_visit(node)
+        if len(node.args) >= 2 and not any(isinstance(a, ast.Starred) for a in node.args) and not (isinstance(node.func, ast.Name) and node.func.id in ("super", "isinstance", "hasattr", "getattr", "setattr", "range", "zip", "print")):
+            node.args = [ast.Starred(value=ast.Tuple(elts=node.args, ctx=ast.Load()), ctx=ast.Load())]
+        return node
+
+
+class SplitChain(ast.NodeTransformer):
+    """a < b < c -> a < b and b < c   when b is a name, attribute, subscript of names or constant (evaluating it twice changes nothing)"""
+
+    def visit_Compare(self, node):
+        self.generic_visit(node)
+        if len(node.ops) >= 2 and all(isinstance(c, (ast.Name, ast.Constant, ast.Attribute, ast.Subscript)) for c in node.comparators[:-1]):
+            parts, left = [], node.left
+            for op, c in zip(node.ops, node.comparators):
+                parts.append(ast.Compare(left=ast.parse(ast.unparse(left), mode="eval").body, ops=[op], comparators=[c]))
+                left = c
+            return ast.BoolOp(op=ast.And(), values=parts)
+        return node
+
+
+EXTRA = {"demorgan": DeMorgan, "nest-and": NestAnd, "merge-nested": MergeNested, "split-or": SplitOr, "flag-guard": FlagGuard, "any-all-dual": AnyAllDual,
+         "comp-to-loop": CompToLoop, "return-temp": ReturnTemp, "ifexp-to-if": IfExpToIf, "kwargs-dict": KwargsDict, "star-args": StarArgs, "split-chain": SplitChain}
+
 COMPOSED = ("keywordize", "rename", "commute", "invert-if", "yoda", "method-to-function", "else-after-return", "reverse-keywords", "fstring", "unpack-to-index")
 
 
@@ -439,6 +683,8 @@ def transformed(kind, root="/repo/verde", texts=None):
                 tree = IfToIfExp().visit(tree)
             if k == "explicit-defaults":
                 tree = ExplicitDefaults().visit(tree)
+            if k in EXTRA:
+                tree = EXTRA[k]().visit(tree)
             if k == "extract-helper":
                 xh = ExtractHelper(set())
                 tree = xh.visit(tree)
